@@ -299,10 +299,10 @@ package shimagent
 //@     invariant mapdom(s.certs) == entry(mapdom(s.certs)) && mapval(s.certs) == entry(mapval(s.certs))
 //@     invariant certsNonNil(s)
 //@     invariant forall(j, 0 <= j && j < len(keysInAgent), keysInAgent[j] != nil && akBlob(keysInAgent[j]) == blobid(asKey(keysInAgent[j])))
-//@     invariant forall(i, 0 <= i && i < len(keys), keys[i] != nil &&
+//@     invariant [no-hidden-upstream-certificate-is-listed] forall(i, 0 <= i && i < len(keys), keys[i] != nil &&
 //@       ((s.noUpstreamSSHCACert && hiddenBlob(akBlob(keys[i]))) ==> exists(h#bytes, h in dom(s.certs), akBlob(keys[i]) == blobid(asKey(s.certs[h])))))
 //@     invariant [visible-upstream-identities-stay-listed] forall(j, 0 <= j && j <= rangeindex,
 //@       (!(certBlob(blobid(asKey(keysInAgent[j]))) && parseOKid(blobid(asKey(keysInAgent[j])))) ||
 //@        (!(sha(blobid(asKey(keysInAgent[j]))) in dom(s.upstreamSSHCACertCache)) && !(s.noUpstreamSSHCACert && hiddenBlob(blobid(asKey(keysInAgent[j])))))) ==>
 //@       exists(i, 0 <= i && i < len(keys), keys[i] == keysInAgent[j] || akBlob(keys[i]) == blobid(asKey(keysInAgent[j]))))
-//@     invariant forall(h#bytes, h in dom(s.certs), exists(i, 0 <= i && i < len(keys), akBlob(keys[i]) == blobid(asKey(s.certs[h]))))
+//@     invariant [in-memory-certificates-stay-listed] forall(h#bytes, h in dom(s.certs), exists(i, 0 <= i && i < len(keys), akBlob(keys[i]) == blobid(asKey(s.certs[h]))))
